@@ -83,7 +83,12 @@ def _flatten_lists(ctx, ci: ClassInfo) -> Tuple[Optional[List[Optional[str]]], O
     fl = ci.methods.get("tree_flatten")
     if fl is None:
         return None, None, "no tree_flatten"
-    rets = [n for n in ast.walk(fl.node) if isinstance(n, ast.Return)]
+    from ..model import returned_values
+
+    class _R:      # uniform access to the returned expression
+        def __init__(self, v):
+            self.value = v
+    rets = [_R(v_) for _, v_ in returned_values(fl.node)]
     if len(rets) != 1 or not isinstance(rets[0].value, ast.Tuple) or len(rets[0].value.elts) != 2:
         raise AnalysisError(f"{ci.qualname}.tree_flatten: unmodelled return shape")
 
@@ -119,10 +124,11 @@ def _unflatten_slots(ctx, ci: ClassInfo, children: List, aux: List) -> Dict[str,
     if not un.is_classmethod or len(pos) != 3:
         raise AnalysisError(f"{ci.qualname}.tree_unflatten: not classmethod(cls, aux, children)")
     cls_name, aux_name, ch_name = pos
-    rets = [n for n in ast.walk(un.node) if isinstance(n, ast.Return)]
-    if len(rets) != 1 or not isinstance(rets[0].value, ast.Call):
+    from ..model import returned_values
+    rets = [v_ for _, v_ in returned_values(un.node)]
+    if len(rets) != 1 or not isinstance(rets[0], ast.Call):
         raise AnalysisError(f"{ci.qualname}.tree_unflatten: unmodelled body")
-    c = rets[0].value
+    c = rets[0]
     if not (isinstance(c.func, ast.Name) and c.func.id == cls_name):
         raise AnalysisError(f"{ci.qualname}.tree_unflatten: does not call cls(...)")
     fields = [f.name for f in ctx.p.dataclass_fields(ci.qualname)]
@@ -487,9 +493,10 @@ def lat3(ctx):
                msg or f"components (mod, div) = {comps}, range {total}", post, line)
         strides = {k: comps[k][1] for k in range(len(comps))}
         # get_site_num
-        rets = [x for x in ast.walk(gsn.node) if isinstance(x, ast.Return)]
+        from ..model import returned_values
+        rets = [v_ for _, v_ in returned_values(gsn.node)]
         pname = [p.name for p in gsn.params if p.name != "self"][0]
-        lf = _linear_form(rets[0].value, pname, {}) if len(rets) == 1 else None
+        lf = _linear_form(rets[0], pname, {}) if len(rets) == 1 else None
         if lf is None:
             raise AnalysisError(f"{ci.qualname}.get_site_num: unmodelled expression")
         same = lf == strides
@@ -755,11 +762,13 @@ def _component(t: T, pos: T) -> Optional[Tuple[int, int, Optional[str]]]:
         t = t.args[1]
     off = 0
     if t.op == "binop" and t.args[0] in ("+", "-"):
-        c = t.args[2]
+        c, rest = t.args[2], t.args[1]
+        if t.args[0] == "+" and t.args[1].op == "const" and t.args[2].op != "const":
+            c, rest = t.args[1], t.args[2]        # c + pos[k]
         if c.op != "const" or not isinstance(c.args[0], int):
             return None
         off = c.args[0] if t.args[0] == "+" else -c.args[0]
-        t = t.args[1]
+        t = rest
     if t.op == "getitem" and t.args[0] is pos and t.args[1].op == "const":
         return (t.args[1].args[0], off, mod)
     return None
